@@ -18,6 +18,9 @@ import RV.Base.Proto
     evalf S O <path>           -> for a path `m mod X`: the answer of MulPath.eval(…, first=False) (`T|pairs`, a list); else bad-op
     bgp same X <path>          -> `?x path ?x`, X = `*` (unbound) or a term (pre-bound): `T|pairs` as `eval`
     bgp before|after <path>    -> `?s ?pp ?zz . ?s path ?o` / `?s path ?o . ?zz ?pp ?o` (DISTINCT): `T|set of pairs`
+    veval KIND S O <path> / m1 / m2 …  -> the `eval` answer of evalPathV over the graph OBJECT of that kind
+                                  (KIND = plain: plainView m1; union: unionView [m1, m2, …]; agg: aggView [m1, m2, …]);
+                                  each member is a list of triples `s,p,o …`, members separated by `/`
     api S O <path>             -> the Graph API answers for the built path (gContains / gObjects / gSubjects /
                                   gSubjectObjects / g…OfList / gValue…):
                                     S O given:  in|T or in|F
@@ -215,6 +218,20 @@ def apiLine (g : Graph) (q : Path) : Option Nat → Option Nat → String
   | none, none =>
     "so|" ++ showPairs (uniq [] (gSubjectObjects g q false)) ++ "|uniq|" ++ showPairs (gSubjectObjects g q true)
 
+/-- split the words after the path into members at every `/` -/
+def members? (ws : List String) : Option (List Graph) :=
+  let rec go : List String → List String → List (List String) → List (List String)
+    | [], cur, acc => (cur.reverse :: acc).reverse
+    | w :: ws, cur, acc => if w = "/" then go ws [] (cur.reverse :: acc) else go ws (w :: cur) acc
+  match ws with
+  | "/" :: rest => (go rest [] []).mapM triples?
+  | [] => some []
+  | _ => none
+
+def viewOf (kind : String) (ms : List Graph) : Option TriplesFn :=
+  if kind = "plain" then some (plainView (ms.headD [])) else if kind = "union" then some (unionView ms)
+  else if kind = "agg" then some (aggView ms) else none
+
 def step (g : Graph) : List String → Graph × String
   | "graph" :: ws =>
     match triples? ws with
@@ -249,6 +266,19 @@ def step (g : Graph) : List String → Graph × String
     match path? (ws.length + 1) ws with
     | some (p, []) => (g, "T|" ++ showPairs (dedupInto [] (bgpObjAfter g (build p))))
     | _ => (g, "bad-op")
+  | "veval" :: kind :: s :: o :: ws =>
+    match optNat? s, optNat? o, path? (ws.length + 1) ws with
+    | some s, some o, some (p, rest) =>
+      match members? rest with
+      | some ms =>
+        match viewOf kind ms with
+        | some tr =>
+          let q := build p
+          let r := evalPathV tr q s o
+          (g, "T|" ++ showPairs (if q.isClosure then r else dedupInto [] r))
+        | none => (g, "bad-op")
+      | none => (g, "bad-op")
+    | _, _, _ => (g, "bad-op")
   | "api" :: s :: o :: ws =>
     match optNat? s, optNat? o, path? (ws.length + 1) ws with
     | some s, some o, some (p, []) => (g, apiLine g (build p) s o)
